@@ -17,7 +17,7 @@ EXPLANATION = ("bounded stand-in only: the install helpers do their work in gene
 
 MANIFEST = {
     "text": "Bounded stand-in: seeded request sequences (doins [-r], doexe, dobin, dosbin, dolib.so, dolib.a, dodoc [-r], doman incl. language "
-            "suffixes and -i18n, domo, dodir, keepdir, dosym [-r], dohard) with the options the bash wrappers pass (--dest, --insoptions, "
+            "suffixes and -i18n, domo, dohtml [-a -A -f -p -r], dodir, keepdir, dosym [-r], dohard) with the options the bash wrappers pass (--dest, --insoptions, "
             "--diroptions), for EAPI 6 and 8, on source trees with files, nested directories and symlinks, and images that already hold "
             "a file, a dangling symlink or a symlink at a destination: after every request the image snapshot (entry types, modes, data, "
             "link targets, hardlink groups) must equal the previous snapshot plus exactly the entries a reference placement model "
@@ -99,13 +99,14 @@ def enum_helpers(seed):
         work = os.path.join(scratch, "work")
         os.makedirs(os.path.join(work, "tree/sub"))
         src = {"a.txt": "A", "b.conf": "B", "tool": "#!/bin/sh\n", "libx.so": "ELF", "liby.a": "AR", "page.1": "man1", "page.de.1": "mann de", "page.3": "lib", "nosection": "x", "de.mo": "MO",
-               "tree/t1": "T1", "tree/sub/t2": "T2", "README": "R"}
+               "tree/t1": "T1", "tree/sub/t2": "T2", "README": "R", "index.html": "<html>", "style.css": "css", "notes.txt": "N", "data.xml": "<x/>", "hdir/in.html": "<i>", "hdir/deep/pic.png": "PNG", "hdir/skip.txt": "S", "hdir/deep/code.c": "C"}
+        os.makedirs(os.path.join(work, "hdir/deep"))
         for n, d in src.items():
             open(os.path.join(work, n), "w").write(d)
         os.chmod(os.path.join(work, "tool"), 0o700)
         os.symlink("a.txt", os.path.join(work, "alink"))
         HELPERS = {"doins": I.Doins, "doexe": I.Doexe, "dobin": I.Dobin, "dosbin": I.Dosbin, "dolib.so": I.Dolib_so, "dolib.a": I.Dolib_a, "dodoc": I.Dodoc, "doman": I.Doman, "domo": I.Domo,
-                   "dodir": I.Dodir, "keepdir": I.Keepdir, "dosym": I.Dosym, "dohard": I.Dohard}
+                   "dodir": I.Dodir, "keepdir": I.Keepdir, "dosym": I.Dosym, "dohard": I.Dohard, "dohtml": I.Dohtml}
         for eapi in ("6", "8"):
             pkg = FakePkg("cat/pkg-1", eapi=eapi, slot="2")
             PF = "pkg-1"
@@ -138,6 +139,15 @@ def enum_helpers(seed):
                 ("dodir", "--diroptions=-m0755", ["/var/lib/pkg", "/opt/p/q"], {"var/lib/pkg": ("dir", 0o755), "opt/p/q": ("dir", 0o755)}),
                 ("dodir", "--diroptions=-m0700", ["/var/private"], {"var/private": ("dir", 0o700)}),
                 ("keepdir", "--diroptions=-m0755", ["/var/empty"], {"var/empty": ("dir", 0o755), "var/empty/.keep_cat_pkg-2": ("file", 0o644, b"")}),
+                # dohtml: only files with an allowed extension (default list, -a replaces it, -A adds to it) or named by -f; what is not allowed is passed over
+                ("dohtml", f"--dest=/usr/share/doc/{PF}/html", ["index.html", "notes.txt", "style.css"], {f"usr/share/doc/{PF}/html/index.html": F("index.html", 0o644), f"usr/share/doc/{PF}/html/style.css": F("style.css", 0o644)}),
+                ("dohtml", f"--dest=/usr/share/doc/{PF}/h2", ["-a", "txt", "index.html", "notes.txt"], {f"usr/share/doc/{PF}/h2/notes.txt": F("notes.txt", 0o644)}),
+                ("dohtml", f"--dest=/usr/share/doc/{PF}/h3", ["-A", "txt", "index.html", "notes.txt", "data.xml"], {f"usr/share/doc/{PF}/h3/index.html": F("index.html", 0o644), f"usr/share/doc/{PF}/h3/notes.txt": F("notes.txt", 0o644)}),
+                ("dohtml", f"--dest=/usr/share/doc/{PF}/h4", ["index.html", "data.xml", "notes.txt"], {f"usr/share/doc/{PF}/h4/index.html": F("index.html", 0o644)}),
+                ("dohtml", f"--dest=/usr/share/doc/{PF}/h5", ["-f", "README", "style.css", "README", "a.txt"], {f"usr/share/doc/{PF}/h5/style.css": F("style.css", 0o644), f"usr/share/doc/{PF}/h5/README": F("README", 0o644)}),
+                ("dohtml", f"--dest=/usr/share/doc/{PF}/h6", ["-p", "sub", "index.html"], {f"usr/share/doc/{PF}/h6/sub/index.html": F("index.html", 0o644)}),
+                ("dohtml", f"--dest=/usr/share/doc/{PF}/h7", ["-r", "hdir"], {f"usr/share/doc/{PF}/h7/hdir": ("dir", 0o755), f"usr/share/doc/{PF}/h7/hdir/in.html": F("hdir/in.html", 0o644),
+                                                                        f"usr/share/doc/{PF}/h7/hdir/deep": ("dir", 0o755), f"usr/share/doc/{PF}/h7/hdir/deep/pic.png": F("hdir/deep/pic.png", 0o644)}),
                 ("dosym", "", ["../share/x/a.txt", "/usr/bin/a-link"], {"usr/bin/a-link": ("sym", "../share/x/a.txt")}),
                 ("dosym", "", ["/usr/share/x/a.txt", "/usr/bin/abs-link"], {"usr/bin/abs-link": ("sym", "/usr/share/x/a.txt")}),
                 ("dosym", "", ["target", "/usr/share/dir-missing-name/"], None),
